@@ -62,6 +62,8 @@ Pipeline(c, how) == /\ c = "P" /\ SelfSub /\ st[c] = "up" /\ ~reading[c] /\ pend
                     /\ pending' = [pending EXCEPT ![c] = how]
                     /\ UNCHANGED <<st, reading, closedSrv>> /\ Log("pipeline-" \o how, c, FALSE)
 Resume(c) == /\ c \in {"P", "S"} /\ st[c] = "up" /\ ~reading[c] /\ ~closedSrv
+             \* the pipelined ending packet is only reached for sure if nobody else holds up c's deliveries
+             /\ (pending[c] # "none" => \A d \in Clients \ {c} : st[d] = "up" => reading[d])
              /\ reading' = [reading EXCEPT ![c] = TRUE]
              /\ st' = IF pending[c] # "none" THEN [st EXCEPT ![c] = "gone"] ELSE st
              /\ UNCHANGED <<pending, closedSrv>>
